@@ -47,8 +47,12 @@ def r1_r2(facts, rep):
     from ..absint.stdmodels import Seq
     from . import evalnode, evalops
     reads = describe_reads(facts)
+    # the evaluator, or the constructor of the query (which may turn the flag into "is there a sink at all") and its helpers
+    cgq = CallGraph(facts)
+    ctor_own = cgq.exclusive("query::query") if "query::query" in cgq.local else set()
     for b, blk, s in reads:
-        rep.ob("C18-R1", "read-in:%s" % b.path.split("::{closure")[0], b.path.startswith("eval::") and not b.path.startswith("eval::builtin"),
+        top = b.path.split("::{closure")[0]
+        rep.ob("C18-R1", "read-in:%s" % top, (b.path.startswith("eval::") and not b.path.startswith("eval::builtin")) or top in ctor_own,
                "Options.describe is read in %s" % b.path, b.site(s["span"]))
     rep.floor("C18-R1", "reads of Options.describe", len(reads), 1)
     if anchor(rep, "C18-R2", facts, "eval::eval") is None:
@@ -145,28 +149,42 @@ def r2b_operation(facts, rep):
 
 
 def r3_writers(facts, rep):
-    rep.rule("C18-R3", "who-writes: q.descriptions is passed mutably only to Vec::push inside the evaluator (module eval); the field "
-                       "is assigned only when the Query is constructed")
+    rep.rule("C18-R3", "who-writes: the only thing ever done to a Vec<Description> by the library is Vec::push, from the evaluator "
+                       "(module eval) or from a function only the evaluator uses (census of every call that takes such a vector "
+                       "mutably, by type - wherever the query keeps it); a Query is constructed only by query::query")
+    cg = CallGraph(facts)
+    ev_own = cg.exclusive("eval::eval") if "eval::eval" in cg.local else set()
     n = 0
+    READERS = ("::len", "::iter", "::is_empty", "::as_slice", "::deref", "::as_deref", "::as_ref", "::first", "::last", "::get", "::clone", "::fmt", "::eq")
     for b in facts.lib_bodies():
         if b.from_derive():
             continue
         for blk, t, sp, name in b.calls():
-            for a in t["args"]:
-                if a["k"] in ("copy", "move") and ("descriptions",) in flow.field_origins(b, a) \
-                        and flow.is_mut_borrow(b, a):
-                    n += 1
-                    okk = b.path.startswith("eval::") and not b.path.startswith("eval::builtin") and name == "std::vec::Vec::<T, A>::push"
-                    rep.ob("C18-R3", "use:%s:%s" % ("eval" if b.path.startswith("eval::") else b.path, name.split("::")[-1]), okk,
-                           "q.descriptions is passed to %s in %s" % (name, b.path), b.site(sp))
+            g = t["callee"].get("generics", "") if t["callee"]["k"] == "direct" else ""
+            on_vec = (name.startswith("std::vec::Vec::<") or name.startswith("core::slice::<impl [T]>::") or "Extend" in name) and "query::Description" in g
+            if not on_vec:
+                continue
+            m = "::" + name.rsplit("::", 1)[-1]
+            if m in READERS or m.startswith("::iter"):
+                continue
+            # does it take the vector mutably?
+            if not t["args"]:
+                continue
+            a0 = t["args"][0]
+            ty0 = b.local_ty(a0["place"]["local"]) if a0["k"] in ("copy", "move") and not a0["place"]["proj"] else ""
+            if "&mut" not in ty0.replace("& mut", "&mut") and m not in ("::push", "::clear", "::pop", "::insert", "::remove", "::truncate", "::extend", "::drain", "::retain", "::swap_remove", "::append", "::sort", "::reverse", "::dedup"):
+                continue
+            n += 1
+            top = b.path.split("::{closure")[0]
+            okk = name.startswith("std::vec::Vec::<T, A>::push") and ((top.startswith("eval::") and not top.startswith("eval::builtin")) or top in ev_own)
+            rep.ob("C18-R3", "use:%s:%s" % ("eval" if top.startswith("eval::") else top, name.split("::")[-1]), okk,
+                   "a Vec<Description> is passed mutably to %s in %s" % (name, b.path), b.site(sp))
         for blk, i, s in b.stmts():
-            if F.place_fields(s["place"])[-1:] == ["descriptions"]:
-                rep.ob("C18-R3", "assign:%s" % b.path, False, "the descriptions field is assigned in %s" % b.path, b.site(s["span"]))
             rv = s["rv"]
             if rv["k"] == "aggregate" and rv["kind"].get("path") == "query::Query":
                 rep.ob("C18-R3", "construct:%s" % b.path, b.path == "query::query", "a Query is constructed in %s" % b.path,
                        b.site(s["span"]))
-    rep.floor("C18-R3", "uses of q.descriptions", n, 1)
+    rep.floor("C18-R3", "mutating uses of a Vec<Description>", n, 1)
 
 
 def r4_no_index_mutation(facts, rep):
